@@ -478,6 +478,20 @@ fn datum_calls(schema: &Schema, bytes: &[u8], plan: &SourcePlan, limit: usize, r
             rd.read_value(src).map(|_| ()).map_err(|e| e.to_string())
         }));
     }
+    if reader_schema {
+        // resolution against a reader schema that differs from the writer's: [writer, "null"]
+        if let Ok(u) = apache_avro::schema::UnionSchema::new(vec![schema.clone(), Schema::Null]) {
+            let evolved = Schema::Union(u);
+            out.push(observe_call("datum.read_value+evolved_reader", bytes, plan, limit, |src| {
+                let rd = GenericDatumReader::builder(schema).reader_schema(&evolved).build().map_err(|e| e.to_string())?;
+                rd.read_value(src).map(|_| ()).map_err(|e| e.to_string())
+            }));
+        }
+        out.push(observe_call("datum.from_avro_datum", bytes, plan, limit, |src| {
+            #[allow(deprecated)]
+            apache_avro::from_avro_datum(schema, src, None).map(|_| ()).map_err(|e| e.to_string())
+        }));
+    }
     out.push(observe_call("datum.read_deser", bytes, plan, limit, |src| {
         let rd = GenericDatumReader::builder(schema).build().map_err(|e| e.to_string())?;
         rd.read_deser::<Discard>(src).map(|_| ()).map_err(|e| e.to_string())
@@ -1176,7 +1190,8 @@ pub fn child_main(args: &[String]) -> i32 {
         return 2;
     }
     // watchdog (backstop for loops that touch neither seam): a worker that stays inside one
-    // library call of one run for 60 s is a hang, whatever the other workers do
+    // library call of one run for 240 s is a hang, whatever the other workers do (generous: on an
+    // overloaded machine zeroing a 512 MiB buffer under the default limit can take many seconds)
     std::thread::spawn(|| {
         let mut last: Vec<(u64, u64, std::time::Instant)> = (0..64).map(|_| (0, 0, std::time::Instant::now())).collect();
         loop {
@@ -1186,7 +1201,7 @@ pub fn child_main(args: &[String]) -> i32 {
                 let ticks = SLOT_TICKS[i].load(Ordering::Relaxed);
                 if run == 0 || (run, ticks) != (last[i].0, last[i].1) {
                     last[i] = (run, ticks, std::time::Instant::now());
-                } else if last[i].2.elapsed().as_secs() >= 60 {
+                } else if last[i].2.elapsed().as_secs() >= 240 {
                     eprintln!("HANG run={}", run - 1);
                     std::process::exit(3);
                 }
@@ -1467,7 +1482,7 @@ pub fn exec_main(path: &str) -> i32 {
         return 2;
     }
     std::thread::spawn(|| {
-        std::thread::sleep(std::time::Duration::from_secs(60));
+        std::thread::sleep(std::time::Duration::from_secs(240));
         eprintln!("HANG run=0");
         std::process::exit(3);
     });
